@@ -402,6 +402,7 @@ pub fn run(o: &Opts) -> i32 {
         }
     });
     let n = tr.finish();
+    sx::cleanup_dbfiles();
     println!("OBSERVED lines={n} out={out}");
     0
 }
